@@ -34,6 +34,26 @@ package s3db
 //@   ite(a.Type == 2 && b.Type == 1, 0 - cmpIntRealCode(b.Int, a.Real),
 //@   ite(a.Type == 3, cmpStr(a.Text, b.Text), cmpStr(a.Blob, b.Blob)))))))
 
+// Layer (C07): the mast layer of a key is computed from the value of its own
+// storage class: an INTEGER hashes its int64, a REAL the text of its double.
+// mast requires keys that compare equal to have the same layer (the lemma
+// layer-congruent below states it over the two specs).
+//@ spec layerAbs(a AbsKey, bf uint) uint8 =
+//@   ite(a.Type == 1, layerU(iface(int64(a.Int)).tag, iface(int64(a.Int)).box, bf),
+//@   ite(a.Type == 2, layerU(iface(formatFloat(a.Real, 98, -1, 64)).tag, iface(formatFloat(a.Real, 98, -1, 64)).box, bf), 0))
+//@ func (*Key).Layer
+//@   requires k != nil && k.SQLiteValue != nil && (k.Type == v1proto.Type_INT || k.Type == v1proto.Type_REAL)
+//@   modifies nothing
+//@   ensures numeric: result == layerAbs(absKey(k.SQLiteValue), branchFactor)
+
+//@ lemma layer-congruent
+//@   any a AbsKey
+//@   any b AbsKey
+//@   any bf uint
+//@   assume (a.Type == 1 || a.Type == 2) && (b.Type == 1 || b.Type == 2) && !isnan(a.Real) && !isnan(b.Real)
+//@   assume sqliteCmpAbs(a, b) == 0
+//@   show layerAbs(a, bf) == layerAbs(b, bf)
+
 //@ func typeIndex
 //@   requires v != nil && keyTyped(int(v.Type))
 //@   ensures  result == ite(v.Type == v1proto.Type_INT, 0, ite(v.Type == v1proto.Type_REAL, 1, ite(v.Type == v1proto.Type_TEXT, 2, 3)))
